@@ -48,6 +48,7 @@ package entity
 // Resolve dispatches on the type parameter; a resolver that answers without error hands back an entity.
 //@ func Resolve
 //@   trusted
+//@   modifies * except allcells(string)
 //@   ensures result1 == nil ==> result != nil
 //@   props C07
 
